@@ -171,6 +171,10 @@ def rule_i5(ctx):
 
 
 def run(ctx) -> str:
+    from . import c16
+
+    # the containment gate of insert_tree rests on DerivationTree.is_prefix
+    ctx.guarded("I6", lambda: c16.rule_h2(ctx))
     ctx.guarded("I4", lambda: rule_i4(ctx))
     ctx.guarded("I5", lambda: rule_i5(ctx))
     ctx.guarded("I1", lambda: rule_i1(ctx))
